@@ -401,71 +401,7 @@ def run(ctx, chk, tier="quick"):
             continue
         ids_n, offs_n, map_n = [e.id for e in st.targets[0].elts]
         series_arg = call[0].args[0].id if call[0].args and isinstance(call[0].args[0], ast.Name) else None
-        for s in ctx.sites_in(f):
-            if s.stmt is None or s.stmt.kind != "insert" or s.stmt.table not in tabs or not isinstance(s.params_node, ast.Dict):
-                continue
-            pd = {k.value: v for k, v in zip(s.params_node.keys, s.params_node.values) if isinstance(k, ast.Constant)}
-            v = pd.get("start_epoch")
-            list_names = {c.func.value.id for c in ast.walk(f.node) if isinstance(c, ast.Call) and isinstance(c.func, ast.Attribute)
-                          and c.func.attr == "append" and isinstance(c.func.value, ast.Name)}
-            ex = flow.expand(v, keep={series_arg, ids_n, offs_n, map_n} | list_names) if v is not None else None
-            # the series id in scope at this INSERT
-            sid_ok = False
-            desc = ast.unparse(ex) if ex is not None else "?"
-            loopv = None
-            for a in _anc(s.call):
-                if isinstance(a, ast.For):
-                    t = a.target
-                    it = ast.unparse(a.iter)
-                    if isinstance(t, ast.Tuple) and len(t.elts) == 2 and isinstance(t.elts[0], ast.Name) and isinstance(t.elts[1], ast.Name):
-                        if "enumerate(%s)" % ids_n in it.replace(" ", ""):
-                            loopv = ("ids", t.elts[1].id, t.elts[0].id)
-                            break
-                        if loopv is None and map_n not in it:
-                            loopv = ("crossings", t.elts[0].id, t.elts[1].id)
-            if loopv is not None and ex is not None:
-                sid = loopv[1]
-                txt = ast.unparse(ex).replace(" ", "")
-                if kind == "rise":
-                    # epoch[LIST[sid][0]] where LIST collects (index of the interval's start, ...)
-                    import re as _re
-                    en_, _ln = _series_arrays(ctx, f)
-                    m = _re.match(r"^%s\[(\w+)\[%s\]\[0\]\]$" % (_re.escape(en_ or "epoch"), _re.escape(sid)), txt)
-                    if m:
-                        lst = m.group(1)
-                        for c in ast.walk(f.node):
-                            if isinstance(c, ast.Call) and isinstance(c.func, ast.Attribute) and c.func.attr == "append" \
-                                    and isinstance(c.func.value, ast.Name) and c.func.value.id == lst and c.args and isinstance(c.args[0], ast.Tuple):
-                                first = flow.expand(c.args[0].elts[0])
-                                ft = ast.unparse(first)
-                                zs_name = next((n_ for n_, cc in colof.items() if cc == ("zeta_interval", "start_epoch")), None) if rowb is not None else None
-                                from ..idioms import lookup_key_is
-                                sid_ok = zs_name is not None and lookup_key_is(first, zs_name) == 0
-                else:
-                    sid_ok = txt == "%s[%s][0][0]" % (series_arg, sid)
-            # the value column uses the same loop position
-            chk.ob("C13.O3", sid_ok, where_of(f, s.call), "%s.start_epoch = %s (series id in scope: %s)" % (s.stmt.table, desc, loopv[1] if loopv else "?"),
-                   "start of the interval whose series carries that id", key="%s|%s|start_epoch" % (f.qualname, s.stmt.table),
-                   why="an offset or crossing stored under another interval's start belongs to the wrong interval")
-            if s.stmt.table == tabs[0]:
-                offcol = "rain_depth_offset_mm" if kind == "rise" else "time_offset_s"
-                ov = pd.get(offcol)
-                ok_i = loopv is not None and loopv[0] == "ids" and ov is not None and ("%s[%s]" % (offs_n, loopv[2])) in ast.unparse(ov).replace(" ", "")
-                chk.ob("C13.O3", ok_i, where_of(f, s.call), "%s = %s" % (offcol, ast.unparse(ov) if ov is not None else "?"),
-                       "the offset at the same position as the series id", key="%s|%s|offset-position" % (f.qualname, s.stmt.table))
-            else:
-                ccol = "mean_crossing_depth_mm" if kind == "rise" else "mean_crossing_time_s"
-                cv = pd.get(ccol)
-                zv = pd.get("discrete_zeta")
-                ok_c = loopv is not None and loopv[0] == "crossings" and isinstance(cv, ast.Name) and cv.id == loopv[2]
-                outer = None
-                for a in _anc(s.call):
-                    if isinstance(a, ast.For) and "%s.items()" % map_n in ast.unparse(a.iter):
-                        outer = a
-                ok_z = outer is not None and isinstance(outer.target, ast.Tuple) and isinstance(zv, ast.Name) and isinstance(outer.target.elts[0], ast.Name) \
-                    and zv.id == outer.target.elts[0].id
-                chk.ob("C13.O3", ok_c and ok_z, where_of(f, s.call), "crossing = %s at level %s" % (ast.unparse(cv) if cv is not None else "?", ast.unparse(zv) if zv is not None else "?"),
-                       "the crossing value paired with that series id, at the level id that keys it", key="%s|%s|crossing" % (f.qualname, s.stmt.table))
+        _lineage_of_stored_rows(ctx, chk, f, flow, kind, tabs, ids_n, offs_n, map_n, series_arg)
     # ---- recession kind
     rec = ctx.func("recession.compute_offsets")
     kq = None
@@ -614,6 +550,272 @@ def run(ctx, chk, tier="quick"):
                                                       for st in ctl.body for c in ast.walk(st))
     if not fired:
         chk.errors.append("C13.O6 positive control did not fire")
+
+
+
+def _lineage_of_stored_rows(ctx, chk, f, flow, kind, tabs, ids_n, offs_n, map_n, series_arg):
+    """Every row written to <kind>_interval / <kind>_interval_zeta carries the start of the interval whose
+    series has the id in scope, the offset at that id's position, the crossing paired with that id and the
+    level id that keys it.  Decided by resolving the stored expressions through (a) loop bindings
+    (enumerate / zip / .items()), (b) the per-row lists appended in lock step with the series list
+    (LIST[sid] = what was appended for that row) and (c) the identity A[position of K in A] = K."""
+    import copy
+    from ..loops import binding
+    from ..idioms import index_lookup
+
+    # --- the row loop and its lists
+    apps = [c for c in ast.walk(f.node) if isinstance(c, ast.Call) and isinstance(c.func, ast.Attribute) and c.func.attr == "append"
+            and isinstance(c.func.value, ast.Name) and len(c.args) == 1]
+    ser_app = [c for c in apps if c.func.value.id == series_arg]
+    row_loop = None
+    if len(ser_app) == 1:
+        for a in _anc(ser_app[0]):
+            if isinstance(a, ast.For):
+                row_loop = a
+                break
+    appended = {}
+    if row_loop is not None:
+        for c in apps:
+            if enclosing_stmt(c) in row_loop.body:
+                appended.setdefault(c.func.value.id, []).append(c.args[0])
+    aligned = {k: v[0] for k, v in appended.items() if len(v) == 1}
+    # row variable holding zeta_interval.start_epoch
+    zs_name = None
+    rowb = None
+    for b in bindings(ctx, f):
+        if b.kind == "rows" and any(x.table == "zeta_interval" for x in b.site.stmt.sources) or \
+                (b.kind == "rows" and any((x.table or "").startswith("zeta_interval") for x in b.site.stmt.sources)):
+            rowb = b
+    if rowb is not None:
+        al = {x.alias: x.table for x in rowb.site.stmt.sources}
+        for i_, nm in enumerate(rowb.names):
+            e = rowb.site.stmt.columns[i_][0]
+            if nm and e[0] == "col" and e[2] == "start_epoch" and al.get(e[1], e[1] or "zeta_interval") in ("zeta_interval", None):
+                zs_name = nm
+    series_x = None
+    if series_arg in aligned and isinstance(aligned[series_arg], ast.Tuple) and len(aligned[series_arg].elts) == 2:
+        series_x = aligned[series_arg].elts[0]
+
+    def role(name_node):
+        b = binding(name_node)
+        if b is None:
+            return None, None
+        c = b.container
+        if isinstance(c, ast.Name) and c.id == ids_n:
+            if b.kind == "elem" and b.path == ():
+                return "sid", b.loop
+            if b.kind == "counter":
+                return "pos", b.loop
+        if isinstance(c, ast.Name) and c.id == offs_n:
+            if b.kind == "elem" and b.path == ():
+                return "offset", b.loop
+            if b.kind == "counter":
+                return "pos", b.loop
+        if isinstance(c, ast.Name) and c.id == map_n:
+            if b.kind == "key":
+                return "level", b.loop
+            if b.kind == "value" and b.path == ():
+                return "crossings", b.loop
+        if isinstance(c, ast.Name) and b.kind == "elem":
+            r2, l2 = role(c)
+            if r2 == "crossings":
+                if b.path == (0,):
+                    return "sid", b.loop
+                if b.path == (1,):
+                    return "crossing", b.loop
+        if isinstance(c, ast.Subscript) and isinstance(c.value, ast.Name) and c.value.id == map_n and b.kind == "elem":
+            if b.path == (0,):
+                return "sid", b.loop
+            if b.path == (1,):
+                return "crossing", b.loop
+        return None, None
+
+    def simplify(e):
+        """tuple[k] -> element; A[lookup of K in A] -> K; np.array(x) kept."""
+        changed = True
+        while changed:
+            changed = False
+            for parent in ast.walk(ast.Expression(body=e)) if False else [None]:
+                pass
+            e2 = _rewrite(e)
+            if ast.dump(e2) != ast.dump(e):
+                e = e2
+                changed = True
+        return e
+
+    def _rewrite(e):
+        class T(ast.NodeTransformer):
+            def visit_Subscript(self, node):
+                self.generic_visit(node)
+                v, sl = node.value, node.slice
+                if isinstance(v, (ast.Tuple, ast.List)) and isinstance(sl, ast.Constant) and isinstance(sl.value, int) and -len(v.elts) <= sl.value < len(v.elts):
+                    return v.elts[sl.value]
+                lk = index_lookup(sl)
+                if lk is not None and lk[3] == 0 and lk[0] == "eq":
+                    a, b_ = lk[1], lk[2]
+                    if ast.dump(a) == ast.dump(v):
+                        return b_
+                    if ast.dump(b_) == ast.dump(v):
+                        return a
+                return node
+        return T().visit(copy.deepcopy(e))
+
+    def resolve(v, sid_name):
+        """v with LIST[sid] replaced by what the row loop appended to LIST; None if some LIST[sid] is not an aligned list."""
+        ok = [True]
+        ex = flow.expand(v, keep={sid_name, ids_n, offs_n, map_n} | set(appended))
+
+        class T(ast.NodeTransformer):
+            def visit_Subscript(self, node):
+                if isinstance(node.value, ast.Name) and node.value.id in appended and isinstance(node.slice, ast.Name) and node.slice.id == sid_name:
+                    if node.value.id not in aligned:
+                        ok[0] = False
+                        return node
+                    return flow.expand(aligned[node.value.id])
+                self.generic_visit(node)
+                return node
+        r = T().visit(ex)
+        if not ok[0]:
+            return None
+        # a list indexed by anything else than the id in scope is not resolved
+        for n in ast.walk(r):
+            if isinstance(n, ast.Name) and n.id in appended:
+                return None
+        return simplify(r)
+
+    for s in ctx.sites_in(f):
+        if s.stmt is None or s.stmt.kind != "insert" or s.stmt.table not in tabs:
+            continue
+        pd = None
+        if isinstance(s.params_node, ast.Dict):
+            pd = {k.value: v for k, v in zip(s.params_node.keys, s.params_node.values) if isinstance(k, ast.Constant)}
+        elif isinstance(s.params_node, (ast.Tuple, ast.List)) and s.stmt.columns_named:
+            pd = None
+        if pd is None:
+            chk.indeterminate("C13.O3", where_of(f, s.call), "parameters of the INSERT into %s are not a literal dict" % s.stmt.table)
+            continue
+        where = where_of(f, s.call)
+        v = pd.get("start_epoch")
+        # names in the stored expressions and their loop roles
+        def roles_in(e):
+            out = {}
+            if e is None:
+                return out
+            ex = flow.expand(e, keep=set()) if False else e
+            seen = set()
+            stack = [e]
+            while stack:
+                x = stack.pop()
+                for n in ast.walk(x):
+                    if isinstance(n, ast.Name) and isinstance(n.ctx, ast.Load) and id(n) not in seen:
+                        seen.add(id(n))
+                        r, lp = role(n)
+                        if r:
+                            out.setdefault(r, []).append((n, lp))
+                        else:
+                            dv = flow.def_value(n)
+                            if dv is not None and len(seen) < 200:
+                                stack.append(dv)
+            return out
+        rs = roles_in(v)
+        sids = rs.get("sid", [])
+        if v is not None and not sids and any(
+                isinstance(n, ast.Subscript) and isinstance(n.value, ast.Name) and n.value.id in appended and isinstance(n.slice, ast.Name)
+                and role(n.slice)[0] in ("pos", "level", "crossing", "offset")
+                for n in _expanded_with_parents(flow, v, appended)):
+            chk.ob("C13.O3", False, where, "%s.start_epoch = %s: a per-row list indexed by something that is not a series id"
+                   % (s.stmt.table, ast.unparse(flow.expand(v, keep=set(appended)))[:100]),
+                   "start of the interval whose series carries that id", key="%s|%s|start_epoch" % (f.qualname, s.stmt.table),
+                   why="the position in the returned ids (or a level id) is not an index into the caller's lists")
+        elif v is None or not sids:
+            chk.indeterminate("C13.O3", where, "%s.start_epoch = %s: no series id (element of the returned ids / of a crossing list) in it"
+                              % (s.stmt.table, ast.unparse(v) if v is not None else "?"))
+        else:
+            sid_node, sid_loop = sids[0]
+            r = resolve(v, sid_node.id)
+            if r is None:
+                chk.indeterminate("C13.O3", where, "%s.start_epoch = %s uses a list that is not appended exactly once per row" % (s.stmt.table, ast.unparse(v)))
+            else:
+                # strip int()/float() wrappers
+                core = r
+                while isinstance(core, ast.Call) and isinstance(core.func, ast.Name) and core.func.id in ("int", "float") and len(core.args) == 1:
+                    core = core.args[0]
+                good = (isinstance(core, ast.Name) and core.id == zs_name) or \
+                       (series_x is not None and isinstance(core, ast.Subscript) and isinstance(core.slice, ast.Constant) and core.slice.value == 0
+                        and ast.dump(core.value) == ast.dump(flow.expand(series_x)))
+                # decided only if the resolved expression speaks about the row loop's own quantities
+                row_names = {n.id for n in ast.walk(row_loop.target) if isinstance(n, ast.Name)} if row_loop is not None else set()
+                mentions_row = any(isinstance(n, ast.Name) and n.id in row_names for n in ast.walk(core))
+                if not good and not mentions_row:
+                    chk.indeterminate("C13.O3", where, "%s.start_epoch resolves to %s, which is not expressed in the row loop's variables" % (s.stmt.table, ast.unparse(core)[:80]))
+                else:
+                    chk.ob("C13.O3", good, where, "%s.start_epoch = %s = %s for the row of series id %s" % (s.stmt.table, ast.unparse(v)[:60], ast.unparse(core)[:80], sid_node.id),
+                           "start of the interval whose series carries that id", key="%s|%s|start_epoch" % (f.qualname, s.stmt.table),
+                           why="an offset or crossing stored under another interval's start belongs to the wrong interval")
+        sid_loop = sids[0][1] if sids else None
+        if s.stmt.table == tabs[0]:
+            offcol = "rain_depth_offset_mm" if kind == "rise" else "time_offset_s"
+            ov = pd.get(offcol)
+            verdict = None
+            if ov is not None and sid_loop is not None:
+                ro = roles_in(ov)
+                for n, lp in ro.get("offset", []):
+                    verdict = lp is sid_loop if verdict is None else verdict and lp is sid_loop
+                exo = flow.expand(ov, keep={offs_n, ids_n})
+                for n in ast.walk(ov):
+                    if isinstance(n, ast.Subscript) and isinstance(n.value, ast.Name) and n.value.id == offs_n:
+                        if isinstance(n.slice, ast.Name):
+                            r_, lp = role(n.slice)
+                            verdict = (r_ == "pos" and lp is sid_loop) if verdict is None else verdict and (r_ == "pos" and lp is sid_loop)
+                        else:
+                            verdict = False
+            if verdict is None:
+                chk.indeterminate("C13.O3", where, "%s = %s: no element of the returned offsets in it" % (offcol, ast.unparse(ov) if ov is not None else "?"))
+            else:
+                chk.ob("C13.O3", verdict, where, "%s = %s" % (offcol, ast.unparse(ov)),
+                       "the offset at the same position as the series id", key="%s|%s|offset-position" % (f.qualname, s.stmt.table))
+        else:
+            ccol = "mean_crossing_depth_mm" if kind == "rise" else "mean_crossing_time_s"
+            cv, zv = pd.get(ccol), pd.get("discrete_zeta")
+            rc, rz = roles_in(cv), roles_in(zv)
+            if not rc or not rz or sid_loop is None:
+                chk.indeterminate("C13.O3", where, "crossing = %s at level %s: not loop variables of the returned mapping" % (
+                    ast.unparse(cv) if cv is not None else "?", ast.unparse(zv) if zv is not None else "?"))
+            else:
+                ok_c = list(rc) == ["crossing"] and all(lp is sid_loop for _, lp in rc["crossing"])
+                # the level key must key the list the (sid, crossing) pairs come from
+                ok_z = list(rz) == ["level"]
+                if ok_z:
+                    lvl_loop = rz["level"][0][1]
+                    cont = binding(sids[0][0]).container
+                    if isinstance(cont, ast.Name):
+                        bcont = binding(cont)
+                        ok_z = bcont is not None and bcont.loop is lvl_loop
+                    elif isinstance(cont, ast.Subscript) and isinstance(cont.slice, ast.Name):
+                        rk, lk_ = role(cont.slice)
+                        ok_z = rk == "level" and lk_ is lvl_loop
+                    else:
+                        ok_z = False
+                chk.ob("C13.O3", ok_c and ok_z, where, "crossing = %s at level %s" % (ast.unparse(cv), ast.unparse(zv)),
+                       "the crossing value paired with that series id, at the level id that keys it", key="%s|%s|crossing" % (f.qualname, s.stmt.table))
+
+def _expanded_with_parents(flow, v, keep):
+    """Original nodes of v and of the definitions it reaches (so that loop bindings can be looked up)."""
+    seen = set()
+    out = []
+    stack = [v]
+    while stack and len(out) < 400:
+        x = stack.pop()
+        for n in ast.walk(x):
+            if id(n) in seen:
+                continue
+            seen.add(id(n))
+            out.append(n)
+            if isinstance(n, ast.Name) and isinstance(n.ctx, ast.Load) and n.id not in keep:
+                dv = flow.def_value(n)
+                if dv is not None:
+                    stack.append(dv)
+    return out
 
 
 def _series_arrays(ctx, f):
